@@ -134,11 +134,36 @@ def sources(text, scratch, has_qname_values, lxml_etree, ET, xmlschema):
         'nonseekable': lambda: NonSeekable(data),
         'lxml_tree': lambda: lxml_etree.fromstring(data),
         'XMLResource': lambda: xmlschema.XMLResource(text),
+        'lxml_commented': lambda: commented(lxml_etree.fromstring(data), lxml_etree),
     }
     if not has_qname_values:
         out['et_element'] = lambda: ET.fromstring(text)
         out['et_tree'] = lambda: ET.ElementTree(ET.fromstring(text))
     return out
+
+
+def commented(root, lxml_etree):
+    """The same document with comments and processing instructions (kept by lxml trees) where they change nothing: after
+    the text of leaf elements, before it (the text becomes the comment's tail) and between the children."""
+    for k, e in enumerate(list(root.iter())):
+        if not isinstance(e.tag, str):
+            continue
+        if e.tag.startswith('{%s}' % D.EXT) or e.tag.endswith(('}mx', '}comment')):
+            continue     # any / mixed content: see the probe in run_hints (listed finding)
+        if len(e) == 0 and e.text and e.text.strip():
+            if k % 3 == 0:
+                e.append(lxml_etree.Comment(' after '))
+            elif k % 3 == 1:
+                c = lxml_etree.Comment(' before ')
+                c.tail = e.text
+                e.text = None
+                e.insert(0, c)
+        elif len(e) and k % 2 == 0 and not (e.text and e.text.strip()):
+            pi = lxml_etree.ProcessingInstruction('vk', 'between')
+            pi.tail = e[0].tail
+            e[0].tail = None
+            e.insert(1, pi)
+    return root
 
 
 def close(src):
@@ -269,17 +294,31 @@ def compare_document(res, xmlschema, schema, text, label, case, has_qname_values
                           f'{label}: {route} on {kind} says valid={out["valid"]}, iter_errors on str says {ref_valid} ({ref_first})')
             continue
         loose = kind.startswith('et_')   # a bare ElementTree element carries no prefix declarations
-        if not ref_valid and 'first' in out and out['first'] != ref_first:
-            a, b = out['first'], ref_first
+        if kind == 'lxml_commented':
+            # the child position quoted in a message counts comments and PIs too: compare on reasons without it
+            import re as _re
+            unpos = lambda k: None if k is None else (_re.sub(r'position \d+', 'position N', k[0]), k[1])
+            if 'first' in out:
+                out['first'] = unpos(out['first'])
+            if 'errors' in out:
+                out['errors'] = [unpos(k) for k in out['errors']]
+            if (unpos(ref_first), [unpos(k) for k in ref_errors]) != (ref_first, ref_errors):
+                ref_first_c, ref_errors_c = unpos(ref_first), [unpos(k) for k in ref_errors]
+            else:
+                ref_first_c, ref_errors_c = ref_first, ref_errors
+        else:
+            ref_first_c, ref_errors_c = ref_first, ref_errors
+        if not ref_valid and 'first' in out and out['first'] != ref_first_c:
+            a, b = out['first'], ref_first_c
             same_place = a is not None and (a[1] == b[1] or a[1] is None or b[1] is None)
             if not (loose and same_place):
                 res.violation(first_error_mechanism(route, a, b), dict(case, route=route, source=kind),
                               f'{label}: {route} on {kind} first error {a} but lax collects first {b}')
                 continue
-        if 'errors' in out and out['errors'] != ref_errors:
-            if not (loose and [e[1] for e in out['errors']] == [e[1] for e in ref_errors]):
+        if 'errors' in out and out['errors'] != ref_errors_c:
+            if not (loose and [e[1] for e in out['errors']] == [e[1] for e in ref_errors_c]):
                 res.violation(f'error-list-differs:{route}', dict(case, route=route, source=kind),
-                              f'{label}: {route} on {kind} errors {out["errors"][:3]} vs {ref_errors[:3]}')
+                              f'{label}: {route} on {kind} errors {out["errors"][:3]} vs {ref_errors_c[:3]}')
                 continue
         if ref_valid and 'data' in out and not same_data(out['data'], ref_data, nsmap, loose):
             res.violation(f'data-differs:{route}', dict(case, route=route, source=kind),
@@ -429,6 +468,23 @@ def run_hints(spec, res):
                 else:
                     res.count('agree:' + ('valid' if valid else 'invalid'))
     shutil.rmtree(d, ignore_errors=True)
+    # a tree that keeps comments (lxml) with a comment inside a mixed content: the decoded data must not depend on it
+    from lxml import etree as lxml_etree
+    mixed_xsd = (f'<xs:schema xmlns:xs="{D.XS}"><xs:element name="m"><xs:complexType mixed="true"><xs:sequence>'
+                 f'<xs:element name="b" minOccurs="0" maxOccurs="unbounded"/></xs:sequence></xs:complexType></xs:element></xs:schema>')
+    for version, cls in (('1.0', xmlschema.XMLSchema10), ('1.1', xmlschema.XMLSchema11)):
+        schema = cls(mixed_xsd)
+        for doc in ('<m>x<!-- c -->y</m>', '<m>x<b/>t<?p?>u</m>', '<m><!-- c -->only</m>'):
+            res.evaluations += 1
+            res.count('hints:mixed_content_with_comment')
+            a = schema.decode(doc, validation='lax')
+            b = schema.decode(lxml_etree.fromstring(doc), validation='lax')
+            if repr(a[0]) != repr(b[0]) or len(a[1]) != len(b[1]):
+                res.violation('data-differs:lxml-tree-with-comment-in-mixed-content',
+                              {'scenario': 'hints', 'version': version, 'doc': doc, 'schema': mixed_xsd},
+                              f'{doc}: text source {a[0]!r}, lxml tree {b[0]!r}')
+            else:
+                res.count('agree:valid')
 
 
 def run_cli(spec, res):
